@@ -35,21 +35,22 @@ func runC22(c *an.Ctx) {
 	if fn == nil || toB58 == nil {
 		return
 	}
+	// the comparison of the input string (the parameter, whatever it is called) with its re-encoding: != or ==
 	var cmp *ssa.BinOp
-	for _, v := range an.FindValues(fn, func(v ssa.Value) bool {
-		b, ok := v.(*ssa.BinOp)
-		if !ok || b.Op != token.NEQ {
-			return false
-		}
-		return an.AccessPath(b.X) == fn.Params[0].Name() || an.AccessPath(b.Y) == fn.Params[0].Name()
-	}) {
+	differs := an.ATrue // outcome of cmp when the two strings differ
+	isInput := func(x ssa.Value) bool { return an.AccessPath(x) == fn.Params[0].Name() }
+	notInput := func(x ssa.Value) bool { _, isK := x.(*ssa.Const); return !isK && !isInput(x) }
+	for _, v := range an.FindValues(fn, func(v ssa.Value) bool { m, _ := relMatch(v, token.NEQ, isInput, notInput); return m }) {
 		cmp = v.(*ssa.BinOp)
+		if _, whenTrue := relMatch(v, token.NEQ, isInput, notInput); !whenTrue {
+			differs = an.AFalse
+		}
 	}
 	if cmp == nil {
 		c.Violate("guard|AddressFromBase58|re-encode-equals-input", "an accepted string equals the canonical encoding of the decoded address", c.P.Rel(fn.Pos()), "comparison with the input string not found")
 		return
 	}
-	g := &an.Guard{Name: "re-encoding differs", FailValue: an.ATrue, MatchValue: func(v ssa.Value) bool { return v == ssa.Value(cmp) }}
+	g := &an.Guard{Name: "re-encoding differs", FailValue: differs, MatchValue: func(v ssa.Value) bool { return v == ssa.Value(cmp) }}
 	v := an.Guarded(c.P, fn, []*an.Guard{g}, nilErrReturn, false)
 	c.Check(v.Holds && v.ActionSites >= 1, "guard|AddressFromBase58|re-encode-equals-input", "an accepted string equals the canonical encoding of the decoded address", c.P.Rel(fn.Pos()), v.Witness)
 	// the re-encoded value is ToBase58 of the very address returned
@@ -75,37 +76,16 @@ func runC22(c *an.Ctx) {
 	}
 	c.Check(ok, "same-subject|AddressFromBase58|re-encodes-returned-address", "the value re-encoded is the address that is returned", c.P.Rel(cmp.Pos()), "ToBase58 is not applied to the returned address")
 	// length / version
-	lenG := &an.Guard{Name: "payload length", FailValue: an.ATrue, MatchValue: func(v ssa.Value) bool {
-		b, ok := v.(*ssa.BinOp)
-		if !ok || b.Op != token.NEQ {
-			return false
-		}
-		k, isK := b.Y.(*ssa.Const)
-		return isK && k.Value != nil && k.Value.String() == "25"
-	}}
-	v = an.Guarded(c.P, fn, []*an.Guard{lenG}, nilErrReturn, false)
+	lenG := relGuards("payload length", token.NEQ, func(v ssa.Value) bool { _, isK := v.(*ssa.Const); return !isK }, isConstVal("25"))
+	v = an.Guarded(c.P, fn, lenG, nilErrReturn, false)
 	c.Check(v.Holds && v.GuardSites == 1, "guard|AddressFromBase58|payload-length", "the decoded payload must be exactly version+20+checksum bytes", c.P.Rel(fn.Pos()), v.Witness)
-	verG := &an.Guard{Name: "version byte", FailValue: an.ATrue, MatchValue: func(v ssa.Value) bool {
-		b, ok := v.(*ssa.BinOp)
-		if !ok || b.Op != token.NEQ {
-			return false
-		}
-		k, isK := b.Y.(*ssa.Const)
-		return isK && k.Value != nil && k.Value.String() == "23"
-	}}
-	v = an.Guarded(c.P, fn, []*an.Guard{verG}, nilErrReturn, false)
+	verG := relGuards("version byte", token.NEQ, func(v ssa.Value) bool { _, isK := v.(*ssa.Const); return !isK }, isConstVal("23"))
+	v = an.Guarded(c.P, fn, verG, nilErrReturn, false)
 	c.Check(v.Holds && v.GuardSites == 1, "guard|AddressFromBase58|version-byte", "the version byte must be 23", c.P.Rel(fn.Pos()), v.Witness)
 	// hex: AddressFromHexString parses through AddressParseFromBytes (length check)
 	if hx := mustFunc(c, "common.AddressParseFromBytes"); hx != nil {
-		lg := &an.Guard{Name: "length", FailValue: an.ATrue, MatchValue: func(v ssa.Value) bool {
-			b, ok := v.(*ssa.BinOp)
-			if !ok || b.Op != token.NEQ {
-				return false
-			}
-			k, isK := b.Y.(*ssa.Const)
-			return isK && k.Value != nil && k.Value.String() == "20"
-		}}
-		v := an.Guarded(c.P, hx, []*an.Guard{lg}, nilErrReturn, false)
+		lg := relGuards("length", token.NEQ, func(v ssa.Value) bool { _, isK := v.(*ssa.Const); return !isK }, isConstVal("20"))
+		v := an.Guarded(c.P, hx, lg, nilErrReturn, false)
 		c.Check(v.Holds && v.GuardSites == 1, "guard|AddressParseFromBytes|length", "raw address bytes must be exactly 20 bytes long", c.P.Rel(hx.Pos()), v.Witness)
 	}
 }
@@ -173,12 +153,9 @@ func runC23(c *an.Ctx) {
 			c.Check(w == "" && sites == 2 && rets >= 1, "guard|GetProgramInfo|ExpectEOF", "a script is accepted only if nothing follows the recognised pattern", c.P.Rel(gi.Pos()), w)
 		}
 		// key count equality
-		cnt := &an.Guard{Name: "len(keys) != n", FailValue: an.ATrue, MatchValue: func(v ssa.Value) bool {
-			b, ok := v.(*ssa.BinOp)
-			if !ok || b.Op != token.NEQ {
-				return false
-			}
-			cv, isCv := b.X.(*ssa.Convert)
+		// int64(len(keys)) != n, in either operand order and either polarity
+		isLenConv := func(x ssa.Value) bool {
+			cv, isCv := x.(*ssa.Convert)
 			if !isCv {
 				return false
 			}
@@ -188,7 +165,8 @@ func runC23(c *an.Ctx) {
 			}
 			bi, isB := call.Call.Value.(*ssa.Builtin)
 			return isB && bi.Name() == "len"
-		}}
+		}
+		cnt := relGuards("len(keys) != n", token.NEQ, isLenConv, func(y ssa.Value) bool { _, isK := y.(*ssa.Const); return !isK && !isLenConv(y) })
 		// only the multisig success return is concerned: assume the CHECKSIG branch not taken
 		extra := map[ssa.Value]an.Abs{}
 		for _, g := range an.InlineReach(gi) {
@@ -203,7 +181,7 @@ func runC23(c *an.Ctx) {
 				extra[v] = an.AFalse
 			}
 		}
-		sites, _, w := successUnreachable(c, gi, []*an.Guard{cnt}, extra)
+		sites, _, w := successUnreachable(c, gi, cnt, extra)
 		c.Check(w == "" && sites == 1 && len(extra) == 1, "guard|GetProgramInfo|key-count", "a multi-signature script is accepted only if the number of keys equals the declared n", c.P.Rel(gi.Pos()), w)
 		boundsGuardX(c, gi, "GetProgramInfo", nil, extra)
 	}
@@ -223,31 +201,54 @@ func boundsGuard(c *an.Ctx, fn *ssa.Function, name string, isAction func(ssa.Ins
 }
 
 func boundsGuardX(c *an.Ctx, fn *ssa.Function, name string, isAction func(ssa.Instruction) bool, extra map[ssa.Value]an.Abs) {
+	// each bound is a relation that holds on success; it is recognised in every spelling (mirrored operands, negated
+	// operator, the neighbouring constant with the strict/non-strict operator) and the guard fails on the outcome
+	// that contradicts it
+	type rel struct {
+		op     token.Token
+		isA    func(ssa.Value) bool
+		isB    func(ssa.Value) bool
+	}
 	type cmpSpec struct {
 		label string
-		match func(b *ssa.BinOp) bool
+		rels  []rel
 	}
-	isConst := func(v ssa.Value, s string) bool {
-		k, ok := v.(*ssa.Const)
-		return ok && k.Value != nil && k.Value.String() == s
+	nonConst := func(v ssa.Value) bool { _, isK := v.(*ssa.Const); return !isK }
+	// m and n themselves (parameters, lengths, loaded fields, conversions of them): not loop counters or sums
+	var plainOperand func(v ssa.Value) bool
+	plainOperand = func(v ssa.Value) bool {
+		switch x := v.(type) {
+		case *ssa.Const, *ssa.Phi, *ssa.BinOp:
+			return false
+		case *ssa.Convert:
+			return plainOperand(x.X)
+		}
+		return true
 	}
 	specs := []cmpSpec{
-		{"1<=m", func(b *ssa.BinOp) bool { return b.Op == token.LEQ && isConst(b.X, "1") || b.Op == token.GEQ && isConst(b.Y, "1") }},
-		{"n>1", func(b *ssa.BinOp) bool { return b.Op == token.GTR && isConst(b.Y, "1") }},
-		{"n<=MAX", func(b *ssa.BinOp) bool { return b.Op == token.LEQ && isConst(b.Y, "16") }},
-		{"m<=n", func(b *ssa.BinOp) bool {
-			_, kx := b.X.(*ssa.Const)
-			_, ky := b.Y.(*ssa.Const)
-			return b.Op == token.LEQ && !kx && !ky
-		}},
+		{"1<=m", []rel{{token.LEQ, isConstVal("1"), nonConst}, {token.LSS, isConstVal("0"), nonConst}}},
+		{"n>1", []rel{{token.GTR, nonConst, isConstVal("1")}, {token.GEQ, nonConst, isConstVal("2")}}},
+		{"n<=MAX", []rel{{token.LEQ, nonConst, isConstVal("16")}, {token.LSS, nonConst, isConstVal("17")}}},
+		{"m<=n", []rel{{token.LEQ, plainOperand, plainOperand}}},
 	}
 	for _, sp := range specs {
+		fail := map[ssa.Value]an.Abs{}
 		var vals []ssa.Value
 		for _, g := range an.InlineReach(fn) {
-			vals = append(vals, an.FindValues(g, func(v ssa.Value) bool {
-				b, ok := v.(*ssa.BinOp)
-				return ok && sp.match(b)
-			})...)
+			for _, v := range an.FindValues(g, func(v ssa.Value) bool { _, ok := v.(*ssa.BinOp); return ok }) {
+				for _, r := range sp.rels {
+					if m, whenTrue := relMatch(v, r.op, r.isA, r.isB); m {
+						if _, seen := fail[v]; !seen {
+							vals = append(vals, v)
+						}
+						if whenTrue {
+							fail[v] = an.AFalse
+						} else {
+							fail[v] = an.ATrue
+						}
+					}
+				}
+			}
 		}
 		key := fmt.Sprintf("guard|%s|bounds-%s", name, sp.label)
 		rule := "the multi-signature parameters are validated (1 <= m <= n, 1 < n <= MULTI_SIG_MAX_PUBKEY_SIZE) before the script is built/accepted"
@@ -258,7 +259,7 @@ func boundsGuardX(c *an.Ctx, fn *ssa.Function, name string, isAction func(ssa.In
 		held := false
 		for _, val := range vals {
 			val := val
-			g := &an.Guard{Name: sp.label, FailValue: an.AFalse, MatchValue: func(v ssa.Value) bool { return v == val }}
+			g := &an.Guard{Name: sp.label, FailValue: fail[val], MatchValue: func(v ssa.Value) bool { return v == val }}
 			if isAction == nil {
 				// the action is "fn reports success" (a nil error), judged on the evaluated results
 				if _, rets, w := successUnreachable(c, fn, []*an.Guard{g}, extra); w == "" && rets >= 1 {
